@@ -55,24 +55,25 @@ def place(world: str, ra_deg, dec_deg):
                       np.deg2rad(np.asarray(dec_deg, dtype=float)), R)
 
 
-def centres(world: str, n: int):
-    ra, dec = place(world, [i * D for i in range(n)], [0.0] * n)
+def centres(world: str, n: int, spacing: float = D):
+    ra, dec = place(world, [i * spacing for i in range(n)], [0.0] * n)
     return np.column_stack([ra, dec])
 
 
 def obj(pos, row=0, z=None, w=None, seed=0, tag=""):
     """Object in base-frame degrees with a reproducible sub-1e-7 jitter."""
-    return dict(ra=POS[pos] + jitter(seed, f"{pos}{row}{tag}ra"),
+    base = POS[pos] if isinstance(pos, str) else float(pos)
+    return dict(ra=base + jitter(seed, f"{pos}{row}{tag}ra"),
                 dec=(ROW2 if row else 0.0) + jitter(seed, f"{pos}{row}{tag}dec"), z=z, w=w,
                 name=f"{pos}{'r' if row else ''}{tag}")
 
 
-def realise(world, objs, ncentres):
+def realise(world, objs, ncentres, spacing: float = D):
     """-> dict(ra, dec [radian, world], z, w, patch, margin) with reference patch assignment."""
     if not objs:
         raise ValueError("empty catalog")
     ra, dec = place(world, [o["ra"] for o in objs], [o["dec"] for o in objs])
-    cen = centres(world, ncentres)
+    cen = centres(world, ncentres, spacing)
     patch, margin = ref.ref_assign(np.column_stack([ra, dec]), cen)
     has_z = objs[0]["z"] is not None
     has_w = objs[0]["w"] is not None
